@@ -35,6 +35,7 @@ Positions(kind) ==
                                 \* another capitalisation, the valid name as bytes
     [] kind = "option_in_degenerate_context" -> {"unknown"}      \* an unknown option must be rejected whatever the other inputs are
     [] kind = "ndim"         -> {"too_few", "ok", "too_many"}
+    [] kind = "axis_as_numpy_integer" -> {"zero", "one", "two"}   \* the axis of a 3-D analysis taken from an array (np.arange, argmax): the same values as 0 / 1 / 2
     [] OTHER                 -> {"before_fit", "after_fit"}          \* plot
 ValidPos(kind, pos) ==
   CASE kind = "fs"           -> pos = "inside"
@@ -44,5 +45,6 @@ ValidPos(kind, pos) ==
     [] kind = "option"       -> pos \in {"valid1", "valid2"}
     [] kind = "option_in_degenerate_context" -> FALSE
     [] kind = "ndim"         -> pos = "ok"
+    [] kind = "axis_as_numpy_integer" -> pos \in {"zero", "one"}
     [] OTHER                 -> pos = "after_fit"
 =============================================================================
